@@ -17,16 +17,16 @@ type TxSpec struct {
 	From   int    `json:"from"`
 	To     int    `json:"to,omitempty"`
 	Amount int64  `json:"amount,omitempty"`
-	Key    string `json:"key,omitempty"`   // param key
-	Val    string `json:"val,omitempty"`   // param value (JSON) / dao action override / upgrade version
+	Key    string `json:"key,omitempty"`    // param key
+	Val    string `json:"val,omitempty"`    // param value (JSON) / dao action override / upgrade version
 	Height int64  `json:"height,omitempty"` // upgrade height
 	// signing
-	Fee      int64  `json:"fee,omitempty"`       // 0 => exactly the required fee under default multiplier 1; -1 => zero fee (empty coins)
-	SignBy   int    `json:"sign_by,omitempty"`   // 0 => From; otherwise key index+1
-	NoPK     bool   `json:"no_pk,omitempty"`     // omit public key from signature
-	Entropy  int64  `json:"entropy,omitempty"`   // 0 => assigned by driver
-	Memo     string `json:"memo,omitempty"`
-	Raw      []byte `json:"raw,omitempty"`       // Msg == "raw": bytes as they are
+	Fee     int64  `json:"fee,omitempty"`     // 0 => exactly the required fee under default multiplier 1; -1 => zero fee (empty coins)
+	SignBy  int    `json:"sign_by,omitempty"` // 0 => From; otherwise key index+1
+	NoPK    bool   `json:"no_pk,omitempty"`   // omit public key from signature
+	Entropy int64  `json:"entropy,omitempty"` // 0 => assigned by driver
+	Memo    string `json:"memo,omitempty"`
+	Raw     []byte `json:"raw,omitempty"` // Msg == "raw": bytes as they are
 }
 
 func (t TxSpec) String() string {
